@@ -536,6 +536,74 @@ def attribute_paths(case, ctx):
 
 
 # ---------------------------------------------------------------------------------------------------
+# (3c) spectra whose arrays are edited in place between uses
+
+@hyp("C10", "spectrum_paths", lambda tier: st.fixed_dictionaries(
+        {"n": st.integers(5, 12), "seed": st.integers(0, 2**31 - 1), "unit": st.sampled_from(["nm", "um", "angstrom"]),
+         "call_unit": st.sampled_from(["nm", "um", "m", "angstrom"]), "method": st.sampled_from(["linear", "linear", "quadratic", "cubic"]),
+         "edits": st.lists(st.tuples(st.sampled_from(["value_inplace", "value_caller", "value_fill", "wave_shift_inplace", "wave_scale_caller",
+                                                      "assign_value", "use_elsewhere"]),
+                                     st.integers(0, 11), st.floats(0.05, 1.0)), min_size=1, max_size=5)}),
+     "a Spectrum is sampled / used as a quantum efficiency / multiplied, then its value or wavelength ARRAY is edited in "
+     "place (through the attribute or through the array the caller handed to the constructor), then it is used again "
+     "with the same arguments - in its own unit and in another one: every use equals that of a freshly built Spectrum "
+     "holding the current numbers", examples=(300, 1200), budget_s=(150, 600))
+def spectrum_paths(case, ctx):
+    n = case["n"]
+    rng = np.random.default_rng(case["seed"])
+    f_nm = {"nm": 1.0, "um": 1e-3, "angstrom": 10.0, "m": 1e-9}
+    w = (400.0 + 40.0 * np.arange(n) + rng.uniform(0, 10, size=n)) * f_nm[case["unit"]]
+    v = rng.uniform(0.1, 1.0, size=n)
+    q_nm = np.array([430.0, 515.5, 610.0, 400.0 + 40.0 * (n - 1) - 7.0])
+    cube = rng.uniform(0, 100, size=(len(q_nm), 3, 4))
+    ctx.tag("unit:" + case["unit"], "call_unit:" + case["call_unit"], "foreign_unit" if case["unit"] != case["call_unit"] else "own_unit",
+            *sorted({"edit:" + e[0] for e in case["edits"]}))
+    ctx.nontrivial_if(any(e[0] not in ("use_elsewhere",) for e in case["edits"]))
+    with lentil_call("C10.spectrum.build", "Spectrum"):
+        sp = Spectrum(w, v, waveunit=case["unit"])
+
+    def evaluate(x):
+        q = q_nm * f_nm[case["call_unit"]]
+        a = np.asarray(x.sample(q, method=case["method"], waveunit=case["call_unit"]), dtype=float)
+        b = np.asarray(detector.collect_charge(cube, q, x, waveunit=case["call_unit"]), dtype=float).ravel()
+        c = np.asarray((x * Spectrum(np.asarray(x.wave).copy(), np.ones(len(np.asarray(x.wave))), waveunit=x.waveunit)).value, dtype=float)
+        return np.concatenate([a, b, c])
+
+    def fresh():
+        return Spectrum(np.array(sp.wave, dtype=float, copy=True), np.array(sp.value, dtype=float, copy=True), waveunit=sp.waveunit)
+
+    done = []
+    with lentil_call("C10.spectrum.use", "first use"):
+        evaluate(sp)
+    for name, k, x in case["edits"]:
+        i = k % n
+        with lentil_call("C10.spectrum.edit", f"{name} after [{' '.join(done)}]"):
+            if name == "value_inplace":
+                sp.value[i] = x
+            elif name == "value_caller":
+                v[i] = 1.5 * x
+            elif name == "value_fill":
+                sp.value[...] = rng.uniform(0.1, 1.0, size=len(np.asarray(sp.value)))
+            elif name == "wave_shift_inplace":
+                np.add(sp.wave, 20.0 * x * f_nm[case["unit"]], out=sp.wave)
+            elif name == "wave_scale_caller":
+                w *= 1.0 + 0.05 * x
+            elif name == "assign_value":
+                sp.value = rng.uniform(0.1, 1.0, size=len(np.asarray(sp.value)))
+            else:
+                evaluate(Spectrum(np.linspace(300.0, 900.0, 7), np.ones(7), waveunit="nm"))
+        done.append(name)
+        with lentil_call("C10.spectrum.use", f"use after [{' '.join(done)}]"):
+            got = evaluate(sp)
+            want = evaluate(fresh())
+        if got.shape != want.shape or not np.allclose(got, want, rtol=1e-10, atol=1e-12 * float(np.max(np.abs(want)) + 1e-300)):
+            j = int(np.argmax(np.abs(got - want))) if got.shape == want.shape else -1
+            raise Violation("C10.spectrum.stale", f"a Spectrum ({case['unit']}) used in {case['call_unit']} after [{' '.join(done)}] gives "
+                                                  f"{got[j]:.9g} where a freshly built Spectrum with the current numbers gives {want[j]:.9g} "
+                                                  f"(entry {j}: sample / collect_charge / product)")
+
+
+# ---------------------------------------------------------------------------------------------------
 # (4) objects derived from a plane are independent of later in-place work on it (and the other way round)
 
 @hyp("C10", "derived_objects", lambda tier: st.fixed_dictionaries(
